@@ -69,7 +69,7 @@ def gen_case(rng):
     if yaml:
         out.append('---')
     for k, lines in entries:
-        sep = rng.choice([': ', ':\t', ':  ', ': \t '])
+        sep = rng.choice([': ', ': ', ':\t', ':  ', ': \t ', ':'])
         first = k + sep + lines[0] + rng.choice(['', '', ' ', '  ', '\t'])
         out.append(first)
         for l in lines[1:]:
